@@ -202,10 +202,12 @@ func (x *ctx) runStaleGeneration(dir, stage string, noaof bool) {
 	x.mu.Unlock()
 }
 
-// runStaleFlag: the attempt of the previous generation is held AFTER followCheckSome (before its AOF command is
-// forwarded). Its leader A has an empty log, so that attempt's own test `pos >= aofSize` holds. F is re-pointed to B
-// and B's stream is held part-way; then A's AOF reply is let through. The caught-up flag is per server, not per
-// generation: the model's GAof step is not guarded (c06g_stale_flag_refuted).
+// runStaleFlag (regression case of finding C06-stale-generation-raises-caught-up, fixed): the attempt of the previous
+// generation is held AFTER followCheckSome (before its AOF command is forwarded). Its leader A has an empty log, so
+// that attempt's own test `pos >= aofSize` holds. F is re-pointed to B and B's stream is held part-way; then A's AOF
+// reply is let through. The caught-up flag is per server, not per generation: the stale attempt must end under the
+// generation test before it writes it (model: GAof is a guarded step, c06g_stale_flag_inert; the code before the
+// repair is pinned_cfg, c06g_stale_flag_pinned_refuted).
 func (x *ctx) runStaleFlag(dir string) {
 	name := "corpus-stale-generation-held-at-aof-empty-leader"
 	defer func() {
@@ -271,6 +273,14 @@ func (x *ctx) runStaleFlag(dir string) {
 					What: fmt.Sprintf("F is following B (SERVER following=%s) and has been handed %d of the %d bytes of B's log (stream held; caught_up=%v HEALTHZ ok=%v before the release); the AOF reply of the empty leader A to the attempt of the PREVIOUS follow generation is let through: F answers caught_up=%v HEALTHZ ok=%v although GET __marker %s -> %s",
 						followingOf(f.Port), ses.StallAt, lsz, before.caughtUp, before.healthz, st.caughtUp, st.healthz, mB, why), Case: c})
 			}
+		}
+	}
+	if x.drv != nil {
+		// model: "before=<0|1> after=<0|1>" = the flag before / after the stale attempt's AOF reply
+		if m := x.drv.Ask("stale_flag", "proved"); strings.Contains(m, "after=") && strings.Contains(m, "after=1") != bad {
+			x.fail(hx.Failure{Kind: "correspondence", Signature: "stale-generation:flag",
+				What: "the model (GAof of a stale attempt is a guarded step, c06g_stale_flag_inert) and the implementation disagree on the caught-up flag after the AOF reply to an attempt of the previous follow generation",
+				Case: c, Impl: fmt.Sprintf("flag raised while the current generation lacks the marker: %v", bad), Model: m})
 		}
 	}
 	close(ses.Release)
